@@ -338,6 +338,10 @@ func main() {
 
 	// ---- shrink the first findings of every rule, write everything out
 	perRule := map[string]int{}
+	shrinkUntil = time.Now().Add(40 * time.Second)
+	if *tier == "thorough" {
+		shrinkUntil = time.Now().Add(180 * time.Second)
+	}
 	for _, f := range all {
 		key := f.Level + ":" + f.Rule
 		rep.Counts[key]++
